@@ -152,8 +152,28 @@ pub fn generate(check: &str, tier: &str, seed: u64, run: u64) -> Case {
             config.iter_cap = 4000;
             crate::gen::gen_wait_loops(&mut rng)
         }
+        "C15" if run % 5 == 4 => {
+            // programs that yield: only "at most n preemptions per execution" is judged for them
+            // (meta.rs), their result sets are no yardstick (loom's yield scheduling)
+            config.iter_cap = 4000;
+            match rng.below(3) {
+                0 => gen_await(&mut rng, false),
+                1 => crate::gen::gen_yield_after_lock(&mut rng),
+                _ => {
+                    let mut pr = sync_profile(&mut rng, "");
+                    pr.try_ops = false;
+                    pr.yields = true;
+                    gen_sync(&mut rng, &pr)
+                }
+            }
+        }
         "C13" | "C15" => {
             config.iter_cap = 4000;
+            if check == "C13" && run % 3 == 1 {
+                // the checkpoint exercise under a preemption bound (the bound's bookkeeping is
+                // part of what a checkpoint has to restore)
+                config.preemption_bound = Some(1 + (run % 2) as usize);
+            }
             // C15 compares result SETS of bounded and unbounded runs: the unbounded set is only a
             // sound yardstick where it is complete, i.e. outside the domain of finding K6
             // (try-acquires) and of loom's special yield scheduling
